@@ -5,7 +5,7 @@ use crate::ctx::{fnv, Ctx, Violation};
 use crate::docspace::{Kind, Space, SpaceCfg};
 use crate::oracle::{check_exact, check_preorder, Binding, Order};
 use crate::par::par_for;
-use crate::subject::Preset;
+use crate::subject::{self, Preset};
 use serde_json::{json, Value};
 use std::collections::HashSet;
 use xml_schema_generator::Element;
@@ -68,6 +68,15 @@ pub fn judge(docs: &[&DocEntry], el: &Element<String>, rank: u64) -> Vec<Violati
                 }
                 if let Err(msg) = check_preorder(&r.tree) {
                     out.push(mk(&format!("{}/struct-order", label), format!("[{}] {}", label, msg)));
+                }
+                // the same options arrived at in another way render the same bytes
+                let text = subject::render(el, Preset::QuickXml, sorted);
+                for (how, o) in subject::option_spellings(Preset::QuickXml, sorted) {
+                    match subject::guarded(|| el.to_serde_struct(&o)) {
+                        Ok(t) if t == text => {}
+                        Ok(_) => out.push(mk(&format!("{}/options-spelling", label), format!("[{}] the same options built with {} render differently", label, how))),
+                        Err(p) => out.push(mk(&format!("{}/options-spelling", label), format!("[{}] rendering with options built with {} panicked: {}", label, how, p))),
+                    }
                 }
                 views.push(r);
             }
